@@ -31,35 +31,31 @@ class InsertCopies(LoopSpec):
     def ctag(self, cx): raise NotImplementedError
     skipping = False
 
-    # ghost functions (per contract instance, fixed names so that entry/body/after agree)
-    def g_skipped(self, cx):
-        return cx.data.setdefault('g_skipped', cx.W.fresh_fun('skipped', L.I, L.B))
-
-    def g_ins(self, cx):
-        return cx.data.setdefault('g_ins', cx.W.fresh_fun('ins', L.I, L.I))
-
-    def g_jof(self, cx):
-        return cx.data.setdefault('g_jof', cx.W.fresh_fun('jof', L.I, L.I))
-
-    def skipped(self, cx, j):
-        return self.g_skipped(cx)(j) if self.skipping else z3.BoolVal(False)
-
-    def ins(self, cx, j):
-        return self.g_ins(cx)(j) if self.skipping else j
-
-    def jof(self, cx, lp, e):
-        return self.g_jof(cx)(e) if self.skipping else e - lp.entry.clock - 1
-
-    def copy_of(self, cx, lp, j):
-        """the node inserted for carried element j"""
-        return cp(lp.entry.clock + self.ins(cx, j) + 1, self.carried(cx, lp, j))
-
-    def extra_invariant(self, cx, lp):
-        return []
+    # ghost state variables (arrays), havocked at the loop head, assigned by ghost code
+    def ghost_vars(self, cx):
+        if not self.skipping:
+            return {}
+        return {'skipped': z3.ArraySort(L.I, L.B), 'ins': z3.ArraySort(L.I, L.I), 'jof': z3.ArraySort(L.I, L.I)}
 
     def ghost_init(self, cx, lp):
-        if self.skipping:
-            return [self.g_ins(cx)(0) == 0]
+        if not self.skipping:
+            return {}
+        return {'skipped': z3.K(L.I, z3.BoolVal(False)), 'ins': z3.K(L.I, z3.IntVal(0)), 'jof': z3.K(L.I, z3.IntVal(0))}
+
+    def skipped(self, g, j):
+        return z3.Select(g['skipped'], j) if self.skipping else z3.BoolVal(False)
+
+    def ins(self, g, j):
+        return z3.Select(g['ins'], j) if self.skipping else j
+
+    def jof(self, g, lp, e):
+        return z3.Select(g['jof'], e) if self.skipping else e - lp.entry.clock - 1
+
+    def copy_of(self, cx, lp, g, j):
+        """the node inserted for carried element j"""
+        return cp(lp.entry.clock + self.ins(g, j) + 1, self.carried(cx, lp, j))
+
+    def extra_invariant(self, cx, lp):
         return []
 
     def invariant(self, cx, lp):
@@ -67,9 +63,10 @@ class InsertCopies(LoopSpec):
         H, clk, k = lp.st.heap, lp.st.clock, lp.k
         P, i0 = self.parent(cx, lp), self.idx0(cx, lp)
         ct = self.ctag(cx)
-        ins, skipped = (lambda j: self.ins(cx, j)), (lambda j: self.skipped(cx, j))
-        jof = lambda e: self.jof(cx, lp, e)
-        cpy = lambda j: self.copy_of(cx, lp, j)
+        g = lp.st.ghost
+        ins, skipped = (lambda j: self.ins(g, j)), (lambda j: self.skipped(g, j))
+        jof = lambda e: self.jof(g, lp, e)
+        cpy = lambda j: self.copy_of(cx, lp, g, j)
         n = lp.seq.length
         out = []
         out.append(('clock', clk == c0 + ins(k)))
@@ -86,7 +83,7 @@ class InsertCopies(LoopSpec):
                                                patterns=[jof(e)])))
         out.append(('old_children_shifted',
                     forall_nodes(1, lambda z: Imp(H0.mem(P, z), A(H.mem(P, z), H.pos(P, z) == H0.pos(P, z) + z3.If(H0.pos(P, z) >= i0, ins(k), 0))),
-                                 patterns=lambda z: [H0.mem(P, z)])))
+                                 patterns=lambda z: [H0.mem(P, z), H.mem(P, z), H.pos(P, z)])))
         out.append(('copies_in_place',
                     forall_ints(1, lambda j: Imp(A(0 <= j, j < k, z3.Not(skipped(j))),
                                                  A(H.mem(P, cpy(j)), H.pos(P, cpy(j)) == i0 + ins(j))),
@@ -145,8 +142,11 @@ class DeleteByIds(LoopSpec):
     def idtag(self, cx): raise NotImplementedError
     def ident(self, cx, lp, j): raise NotImplementedError     # id named by element j (Str, maybe none_s)
 
-    def g_rem(self, cx):
-        return cx.data.setdefault('g_rem', cx.W.fresh_fun('rem', Node, L.I))
+    def ghost_vars(self, cx):
+        return {'rem': z3.ArraySort(Node, L.I)}     # iteration that removed a node (-1: not removed)
+
+    def ghost_init(self, cx, lp):
+        return {'rem': z3.K(Node, z3.IntVal(-1))}
 
     def eid(self, cx, H, z):
         return text(H.find(z, self.idtag(cx)))
@@ -166,7 +166,7 @@ class DeleteByIds(LoopSpec):
         H0, c0 = lp.entry.heap, lp.entry.clock
         H, clk, k = lp.st.heap, lp.st.clock, lp.k
         P = self.parent(cx, lp)
-        rem = self.g_rem(cx)
+        rem = lambda z: z3.Select(lp.st.ghost['rem'], z)
         ident = lambda j: self.ident(cx, lp, j)
         out = []
         out.append(('clock', clk == c0))
@@ -205,7 +205,10 @@ class DeleteByIds(LoopSpec):
     def ghost_update(self, cx, lp):
         # the node removed in this iteration (if any) was removed at iteration k
         new = [w for w in lp.st.writes[len(lp.head.writes):] if w[0] == 'kids' and w[3][0] == 'remove']
-        return [self.g_rem(cx)(w[3][1]) == lp.k for w in new]
+        r = lp.st.ghost['rem']
+        for w in new:
+            r = z3.Store(r, w[3][1], lp.k)
+        return {'rem': r}
 
     def iteration(self, cx, lp):
         Hh, He = lp.head.heap, lp.st.heap
@@ -222,3 +225,141 @@ class DeleteByIds(LoopSpec):
             return [('C06.exactly_one_warning_of_the_documented_category_only_when_unresolvable',
                      A(z3.BoolVal(nwrites == 0), forall_nodes(1, lambda x: z3.Not(match(x)))))]
         return [('C06.at_most_one_warning_per_element', z3.BoolVal(False))]
+
+
+# ---------------------------------------------------------------------------------------------
+# Multi-element move = (A) resolve all sources, (B) remove them all, (C) insert them as a block
+# ---------------------------------------------------------------------------------------------
+def frame_other_parents(H0, H, P, ctag):
+    """every child list other than P's, and find on P for other tags, are as in H0 (no tag writes)"""
+    t = z3.Const('t!fr', Str)
+    kk = z3.Int('k!fr')
+    q, z = z3.Consts('q!fr z!fr', Node)
+    return [('C03.frame.lists', A(
+        z3.ForAll([q, z], Imp(q != P, A(H.mem(q, z) == H0.mem(q, z), H.pos(q, z) == H0.pos(q, z))), patterns=[H.mem(q, z), H.pos(q, z)]),
+        z3.ForAll([q], Imp(q != P, H.len(q) == H0.len(q)), patterns=[H.len(q)]),
+        z3.ForAll([q, kk], Imp(q != P, H.at(q, kk) == H0.at(q, kk)), patterns=[H.at(q, kk)]))),
+        ('frame.find', A(
+            z3.ForAll([q, t], Imp(q != P, H.find(q, t) == H0.find(q, t)), patterns=[H.find(q, t)]),
+            z3.ForAll([q, t], Imp(q != P, H.falen(q, t) == H0.falen(q, t)), patterns=[H.falen(q, t)]),
+            z3.ForAll([q, t, kk], Imp(q != P, H.fanode(q, t, kk) == H0.fanode(q, t, kk)), patterns=[H.fanode(q, t, kk)]),
+            z3.ForAll([q, t, z], Imp(q != P, H.faidx(q, t, z) == H0.faidx(q, t, z)), patterns=[H.faidx(q, t, z)]),
+            z3.ForAll([t], Imp(t != ctag, H.find(P, t) == H0.find(P, t)), patterns=[H.find(P, t)]))),
+        ('C13.ownership', z3.ForAll([q, z], Imp(H.mem(q, z), is_msg(q) == is_msg(z)), patterns=[H.mem(q, z)]))]
+
+
+def pats(var, *terms):
+    """patterns that actually mention the bound variable (else let the solver choose)"""
+    from pyvc.symexpr import _mentions
+    return [t for t in terms if _mentions(t, var)]
+
+
+class MoveLoops:
+    """mixin for the owner contract: names shared by the three loops"""
+    list_var = None          # local holding the resolved source nodes
+    move_tag = None          # 'story' | 'item'
+    move_idtag = None        # 'storyID' | 'itemID'
+
+    def in_list(self, g, Lst, n, z):
+        """z is one of the first n resolved sources (ghost inverse index `lidx` instead of an existential)"""
+        li = z3.Select(g['lidx'], z)
+        return A(0 <= li, li < n, Lst.elem(li).t == z)
+
+    def m_match(self, cx, H, P, y, idv):
+        return A(H.mem(P, y), H.tag(y) == cx.W.lit(self.move_tag), idv != none_s,
+                 text(H.find(y, cx.W.lit(self.move_idtag))) == idv)
+
+
+class CollectSources(LoopSpec):
+    """(A) for x in named: node = find_child(P, tag, x.id); raise unless found / fresh; lst.append(node)"""
+    writes_heap = False
+
+    def __init__(self, owner):
+        self.o = owner
+        self.havoc_types = {owner.list_var: 'nodelist'}
+
+    def ghost_vars(self, cx):
+        return {'lidx': z3.ArraySort(Node, L.I)}    # inverse of the list of resolved sources
+
+    def ghost_init(self, cx, lp):
+        return {'lidx': z3.K(Node, z3.IntVal(-1))}
+
+    def invariant(self, cx, lp):
+        o = self.o
+        H = lp.entry.heap
+        P = o.move_parent(cx, lp)
+        Lst = lp.st.locals[o.list_var]
+        k = lp.k
+        j, j2 = z3.Ints('j!A j2!A')
+        el = lambda i: Lst.elem(i).t
+        tgt = o.move_target_node(cx, lp)
+        out = [('list_length', Lst.length == k)]
+        out.append(('sources_are_first_matches',
+                    z3.ForAll([j], Imp(A(0 <= j, j < k),
+                                       A(o.m_match(cx, H, P, el(j), o.move_ident(cx, j)),
+                                         forall_nodes(1, lambda y: Imp(A(H.mem(P, y), H.pos(P, y) < H.pos(P, el(j))),
+                                                                       z3.Not(o.m_match(cx, H, P, y, o.move_ident(cx, j)))),
+                                                      patterns=lambda y: [H.mem(P, y)]),
+                                         z3.Select(lp.st.ghost['lidx'], el(j)) == j,
+                                         el(j) != tgt)),
+                              patterns=pats(j, el(j)))))
+        return out
+
+    def ghost_update(self, cx, lp):
+        Lst = lp.st.locals[self.o.list_var]
+        return {'lidx': z3.Store(lp.st.ghost['lidx'], Lst.elem(lp.k).t, lp.k)}
+
+
+class RemoveAll(LoopSpec):
+    """(B) for node in lst: remove_node(P, node)"""
+    writes_heap = True
+
+    def __init__(self, owner):
+        self.o = owner
+
+    def invariant(self, cx, lp):
+        o = self.o
+        H0, H, k = lp.entry.heap, lp.st.heap, lp.k
+        P = o.move_parent(cx, lp)
+        Lst = lp.entry.locals[o.list_var]
+        out = [('clock', lp.st.clock == lp.entry.clock)]
+        out.append(('removed_exactly_the_first_k_sources',
+                    forall_nodes(1, lambda z: H.mem(P, z) == A(H0.mem(P, z), z3.Not(o.in_list(lp.st.ghost, Lst, k, z))),
+                                 patterns=lambda z: [H.mem(P, z), H0.mem(P, z)])))
+        out.append(('survivors_keep_order',
+                    forall_nodes(2, lambda z, w: Imp(A(H.mem(P, z), H.mem(P, w)),
+                                                     (H.pos(P, z) < H.pos(P, w)) == (H0.pos(P, z) < H0.pos(P, w))),
+                                 patterns=lambda z, w: [z3.MultiPattern(H.pos(P, z), H.pos(P, w))])))
+        out += frame_other_parents(H0, H, P, cx.W.lit(o.move_tag))
+        return out
+
+
+class InsertBlock(LoopSpec):
+    """(C) for i, node in enumerate(lst, start=idx): insert_node(P, node, i)"""
+    writes_heap = True
+
+    def __init__(self, owner, index_var):
+        self.o = owner
+        self.index_var = index_var
+
+    def invariant(self, cx, lp):
+        o = self.o
+        Hm, H, k = lp.entry.heap, lp.st.heap, lp.k
+        P = o.move_parent(cx, lp)
+        Lst = lp.entry.locals[o.list_var]
+        idx = lp.entry.locals[self.index_var].t
+        j = z3.Int('j!C')
+        el = lambda i: Lst.elem(i).t
+        out = [('clock', lp.st.clock == lp.entry.clock)]
+        out.append(('idx_in_range', A(0 <= idx, idx <= Hm.len(P))))
+        out.append(('others_shifted',
+                    forall_nodes(1, lambda z: Imp(Hm.mem(P, z), A(H.mem(P, z), H.pos(P, z) == Hm.pos(P, z) + z3.If(Hm.pos(P, z) >= idx, k, 0))),
+                                 patterns=lambda z: [Hm.mem(P, z), H.mem(P, z), H.pos(P, z)])))
+        out.append(('block_in_place',
+                    z3.ForAll([j], Imp(A(0 <= j, j < k), A(H.mem(P, el(j)), H.pos(P, el(j)) == idx + j)), patterns=pats(j, el(j)))))
+        out.append(('only_others_and_block',
+                    forall_nodes(1, lambda z: Imp(H.mem(P, z), z3.Or(Hm.mem(P, z), o.in_list(lp.st.ghost, Lst, k, z))),
+                                 patterns=lambda z: [H.mem(P, z)])))
+        out.append(('length', H.len(P) == Hm.len(P) + k))
+        out += frame_other_parents(Hm, H, P, cx.W.lit(o.move_tag))
+        return out
